@@ -19,7 +19,7 @@ from vlib import refber as rb
 LEVEL = "fault_enumeration"
 
 FAULTS = ["deliver", "deliver", "deliver", "dup", "hold", "rid+1", "rid-1", "rid_rand", "rid_other", "rid_wide", "community", "version",
-          "msgid", "msgid_wide", "user", "engine", "near", "truncate", "drop"]
+          "msgid", "msgid_wide", "user", "engine", "near", "truncate", "drop", "report_stale"]
 # ids that agree with the real one in their low 31/32 bits or differ only in width (5..8 content octets)
 WIDE = [1 << 32, -(1 << 32), 5 << 40, 1 << 31, -(1 << 31), 1 << 62, -(1 << 63), 3 << 32, (1 << 32) + (1 << 31)]
 BASE = (1, 3, 6, 1, 2, 1, 7)
@@ -106,6 +106,22 @@ def emit(cfg, parsed, src, fault, param):
     elif fault == "user":
         if cfg.version == "v3":
             kw["user"] = (cfg.user + "x").encode() if param & 1 else b""
+    elif fault == "report_stale":
+        # a Report of this very agent for this very user (say a network duplicate of the Report that answered an earlier
+        # exchange) whose msgID is that of no request of this history; its request-id is the request's or arbitrary
+        if cfg.version == "v3":
+            mid = req["msg_id"] ^ (1 << (param % 31))
+            used = {p_["msg_id"] for p_ in parsed if p_ is not None and "msg_id" in p_}
+            bit = 0
+            while mid in used:
+                mid = req["msg_id"] ^ (1 << (param % 31)) ^ (1 << (bit % 31)) ^ 0x40000000
+                bit += 1
+            kw["msg_id"] = mid
+            kw["pdu_tag"] = rb.PDU_REPORT
+            if param & 1:
+                kw["request_id"] = (param * 2654435761) & 0x7FFFFFFF
+            if param & 2:
+                kw["mac"] = "absent"
     elif fault == "engine":
         if cfg.version == "v3":
             kw["engine_id"] = OTHER_ENGINE
@@ -287,7 +303,7 @@ def nontrivial(c):
 def run(rep, tier):
     G = drivers.load()
     rep.rule = ("Hypothesis scripts: 1..4 requests (get/get_many/getnext/getbulk) on one session x per-request bursts of 0..5 "
-                "emissions (source request <= k, fault in deliver/drop/dup/hold/rid+-1/rid random/rid of other request/community/"
+                "emissions (source request <= k, fault in deliver/drop/dup/hold/stale Report with a foreign msgID/rid+-1/rid random/rid of other request/community/"
                 "version/msgID/user/engine id/near-miss credentials (one octet appended, removed or changed)/ids equal modulo 2^31-2^32/truncate) x v1/v2c/v3(all levels; half of the v3 sessions learn their engine id by discovery) x nb(90%)/sync/async. Non-trivial = script has an "
                 "emission that is stale (source < k) or faulted; distinct by (cfg, script). Thorough adds exhaustive fault words.")
     rep.assumptions = ["FIFO delivery on loopback UDP", "ids are read from the wire, never predicted"]
